@@ -760,6 +760,17 @@ func makeTask(s spec, w *world, rec *Rec) func() {
 				default:
 					rec.num("findb", ds.FindBuffered(y, buf))
 				}
+				if seed%2 == 1 && r.Next()%4 == 0 {
+					// the derived views, many short calls next to the long ones of other tasks
+					switch r.Next() % 3 {
+					case 0:
+						rec.num("nsets", len(ds.Sets()))
+					case 1:
+						rec.ints("small", ds.SmallestRep())
+					default:
+						rec.ints("roots", ds.Roots())
+					}
+				}
 			}
 			for _, s := range ds.Sets() {
 				rec.ints("set", s)
@@ -1630,12 +1641,15 @@ func main() {
 	spec := &driver.Spec{
 		Property: "C19",
 		Engine:   "sched",
-		Level:    "exploration",
+		// worker i runs under GOMAXPROCS 16, 1, 2, 4, 16, ...: package-level state sized "one per P"
+		ProcsSwarm: []int{16, 1, 2, 4},
+		Level:      "exploration",
 		Rule: "a case is one seeded (scenario, schedule) pair: 2-6 tasks drawn from a catalogue of 19 task kinds in 10 scenarios (all shards of one search; labellers with own storage; iterators+comb; Dawg queries with own searchers on one shared Dawg next to builders; observers and read-only algorithms on one shared dense/sparse/complement/induced-view graph; AllMaximalCliques producer/consumer pairs over channels of capacity 1-3; sets/dsu/tsp/sort/graph editors/codecs/generators on own values; a checkpoint-restored iterator next to its original; twins = 2-3 identical tasks; mixed); one run in 200 is executed in a fresh process (with its reference solo results computed in yet another fresh process) ('cold start': twins, concurrent pass before the solo passes, fine-grained schedule) so that process-wide lazily initialised state is met concurrently, run as goroutines of which exactly one holds the baton; a seeded policy (coarse quanta, uniform quanta in [1,2Q] for Q in {2,10,100,1000}, <= 5 preemptions at exact yield ordinals, preemption at the j-th visit of a chosen site) decides every context switch at the generated yield points. " +
 			"Checked: each task's result equals its result run alone on freshly built identical values; the race detector (blind to the baton hand-over, history_size=7) reports nothing; shared values are unchanged; a complete shard set still partitions the classes. Non-trivial = at least 2 context switches; distinct = distinct hashes of the (task, site) sequence at switch points together with the results (distinct interleavings).",
 		Assumptions: []string{
 			"execution is serialised by the simulator: effects of truly parallel execution that do not need a data race (weak memory) are out of reach; the race-detector clause covers them to the extent that they need a race",
-			"yield points exist at function entries and loop heads only; a preemption between two statements not separated by one is not explored",
+			"yield points exist at function entries, loop heads, lock/unlock operations, channel sends and before statements that contain a sync/atomic operation; a preemption between two statements not separated by one of these is not explored",
+			"GOMAXPROCS is 16, 1, 2 or 4 depending on the worker (a knob the tree can read; with the baton only one task goroutine runs at a time whatever its value)",
 			"the race detector can only report a race whose earlier access is still in its per-goroutine history (GORACE history_size=7)",
 			"standard-library internals that synchronise (sync.Pool in fmt, gob's type lock) add real happens-before edges that can hide one direction of a conflicting pair in one schedule",
 		},
